@@ -609,6 +609,7 @@ func hasNaN(m proto.Message) bool {
 
 // seenClass throttles message formatting; reset at the start of every case.
 var seenClass = map[string]int{}
+var seenClassProcess = map[string]int{}
 
 var detMarshal = proto.MarshalOptions{Deterministic: true}
 
@@ -660,9 +661,14 @@ func check(r *kit.Result, p0 *pb.NodeProto, label string, o opts) string {
 		if o.panicsOnly && !strings.Contains(class, "panic") {
 			return "degenerate:" + class
 		}
-		// at most 2 formatted messages per class and case (the rest are counted)
+		// At most 2 formatted messages per class and case and 6 per class and
+		// worker process (the kit caps violations per chunk and per run, and
+		// must not lose a class to that cap); every occurrence is still
+		// counted in the outcome "<part>:violation:<class>". A replay runs in
+		// a fresh process, so it always shows the message.
 		seenClass[class]++
-		if seenClass[class] <= 2 {
+		seenClassProcess[class]++
+		if seenClass[class] <= 2 && seenClassProcess[class] <= 6 {
 			r.Violate(class, "input %s [%s]: %s", describe(orig), label, short(fmt.Sprintf(format, a...)))
 		}
 		return "violation:" + class
